@@ -297,7 +297,7 @@ pub fn apply(w: &mut World, act: Act) {
         Act::ReleaseStream(i) => {
             if let Some(s) = w.m[i].stream {
                 w.sim.streams[s].held = false;
-                w.sim.streams[s].w.woken.store(true, std::sync::atomic::Ordering::SeqCst);
+                std::task::Wake::wake_by_ref(&w.sim.streams[s].w);
             }
         }
         Act::Term(t) => match t {
@@ -382,7 +382,7 @@ pub fn finish(w: &mut World) {
     for s in 0..w.sim.streams.len() {
         if w.sim.streams[s].held {
             w.sim.streams[s].held = false;
-            w.sim.streams[s].w.woken.store(true, std::sync::atomic::Ordering::SeqCst);
+            std::task::Wake::wake_by_ref(&w.sim.streams[s].w);
         }
     }
     w.settle_check();
